@@ -16,6 +16,7 @@ VAR_POOLS = [
     ['_', '_2', 'a', '_3', 'b', 'c2', 'd', 'n1'],          # collide with fresh reification vars
     ['s', 's2', 'b', 'p', 'n', 'g', 'i', 't'],
     ['_', '_9', '_10', '_2', 'a', '_11', 'b', '_3'],      # names reification generates, incl. two-digit ones
+    ['b', 'b0', 'n1', 'n01', 'x', 'x0', 'y', 'y00'],      # names that tie under (prefix, int(suffix)) keys
 ]
 CONCEPTS = ['alpha', 'beta', 'go-01', 'want-01', 'dog', 'bark-01', 'person', 'name', 'chapter',
             'a', 'b', 'x', '_',                          # concepts spelled like variables
@@ -151,7 +152,8 @@ def gen_content(rng, spec, cfg=None):
     # collapsible reified node (for dereification): (x :ARG1-of (_ / concept :ARG2 y))
     if reifications and rng.chance(cfg.reified_nodes):
         role, concept, srole, trole = rng.pick(reifications)
-        fresh = next(v for v in ['r', 'r2', 'q', '_', '_2', '_3', 'k9'] if v not in varset)
+        names = ['r', 'r2', 'q', '_', '_2', '_3', 'k9'] if rng.chance(0.5) else ['r2', 'h2', 'm1', '_2', 'r', 'k9', 'q']
+        fresh = next(v for v in names if v not in varset)
         src = rng.pick(vars_)
         tgt = rng.pick(vars_) if rng.chance(0.5) else constant()
         if tgt != fresh:
